@@ -84,6 +84,15 @@ def h_scan(g):
     g.check(True, "class-level attributes without a non-interference harness: %s" % (", ".join(extra) or "none"))
 
 
+class NoOp:
+    """collaborator stand-in that accepts any method call (so that an added flush()/close() in the code is not an alarm)"""
+    def __init__(self, **kw):
+        self.__dict__.update(kw)
+
+    def __getattr__(self, name):
+        return lambda *a, **k: None
+
+
 class FakeLoader:
     def __init__(self, *a, **k):
         pass
@@ -101,8 +110,7 @@ def h_entry_point(g):
     dump = os.path.join(d, "smp.save")
     with open(dump + "_multimappers_chr1", "wb") as fh:
         ser.write_int(ser.TERMINATION_INT, fh)
-    agg = Obj(read_stat_counter=dp.EnumStats(), global_counter=Obj(dump=lambda: None), transcript_model_global_counter=Obj(dump=lambda: None),
-              global_printer=Obj(add_read_info=lambda r: None))
+    agg = NoOp(read_stat_counter=dp.EnumStats(), global_counter=NoOp(), transcript_model_global_counter=NoOp(), global_printer=NoOp())
     saved = (dp.Fasta, dp.ReadAssignmentAggregator, dp.ReadAssignmentLoader)
     dp.Fasta = lambda *a, **k: {"chr1": "ACGT" * 50}
     dp.ReadAssignmentAggregator = lambda *a, **k: agg
